@@ -133,31 +133,121 @@ theorem readUnary_replicate (n : Nat) (rest : Bits) :
 theorem loadBits_append (s rest : Bits) : loadBits s.length (s ++ rest) = some (s, rest) := by
   simp [loadBits]
 
-theorem loadLen_enc (m len : Nat) (rest : Bits) (h : len ≤ m) :
+/-- a `#<= m` field holding any value that fits its width is read back (also values above `m`: the reader has no range test) -/
+theorem loadLen_fits (m len : Nat) (rest : Bits) (h : len < 2 ^ lenBits m) :
     loadLen (m : Int) (natToBits (lenBits m) len ++ rest) = some (len, rest) := by
-  unfold loadLen lenBits
+  unfold loadLen
+  unfold lenBits at h ⊢
   simp only [Int.natAbs_natCast]
   by_cases h0 : bitLength m = 0
-  · have : m < 2 ^ 0 := (bitLength_le_iff m 0).1 (by omega)
-    have hl : len = 0 := by simp at this; omega
+  · have hl : len = 0 := by rw [h0] at h; simp at h; omega
     simp [h0, natToBits, hl]
-  · have hlt : len < 2 ^ bitLength m := Nat.lt_of_le_of_lt h (lt_two_pow_bitLength m)
-    simp [h0, Hashmap.loadUint, natToBits_length, natOfBits_natToBits _ _ hlt]
+  · simp [h0, Hashmap.loadUint, natToBits_length, natOfBits_natToBits _ _ h]
 
-/-- the label reader inverts every hashmap.tlb label encoding -/
-theorem deserializeHml_enc {m : Nat} {s : Bits} {k : LabelKind} {lb : Bits} (h : LabelEnc m s k lb) (rest : Bits) :
-    deserializeHml (lb ++ rest) (m : Int) = some (s.length, s, rest) := by
+theorem loadLen_enc (m len : Nat) (rest : Bits) (h : len ≤ m) :
+    loadLen (m : Int) (natToBits (lenBits m) len ++ rest) = some (len, rest) :=
+  loadLen_fits m len rest (Nat.lt_of_le_of_lt h (lt_two_pow_bitLength m))
+
+/-- the constructor branches of the label reader read every label PATTERN back, whether or not it respects `{n <= m}` -/
+theorem readHml_bits {m : Nat} {s : Bits} {k : LabelKind} {lb : Bits} (h : LabelBits m s k lb) (rest : Bits) :
+    readHml (lb ++ rest) (m : Int) = some (s.length, s, rest) := by
+  cases h with
+  | short =>
+    simp [readHml, readUnary_replicate, loadBits_append]
+  | long hl =>
+    simp only [readHml, List.cons_append, List.append_assoc]
+    rw [loadLen_fits m s.length _ hl]
+    simp [loadBits_append]
+  | same v hs hl =>
+    simp only [readHml, List.cons_append]
+    rw [loadLen_fits m s.length _ hl]
+    simp [← hs]
+
+/-- the constructor branches of the label reader invert every hashmap.tlb label encoding -/
+theorem readHml_enc {m : Nat} {s : Bits} {k : LabelKind} {lb : Bits} (h : LabelEnc m s k lb) (rest : Bits) :
+    readHml (lb ++ rest) (m : Int) = some (s.length, s, rest) := by
   cases h with
   | short hl =>
-    simp [deserializeHml, readUnary_replicate, loadBits_append]
+    simp [readHml, readUnary_replicate, loadBits_append]
   | long hl =>
-    simp only [deserializeHml, List.cons_append, List.append_assoc]
+    simp only [readHml, List.cons_append, List.append_assoc]
     rw [loadLen_enc m s.length _ hl]
     simp [loadBits_append]
   | same v hs hl =>
-    simp only [deserializeHml, List.cons_append]
+    simp only [readHml, List.cons_append]
     rw [loadLen_enc m s.length _ hl]
     simp [← hs]
+
+theorem labelEnc_len_le {m : Nat} {s : Bits} {k : LabelKind} {lb : Bits} (h : LabelEnc m s k lb) : s.length ≤ m := by
+  cases h <;> assumption
+
+/-- the label reader inverts every hashmap.tlb label encoding (`{n <= m}` is part of `LabelEnc`, so the length test of
+`deserialize_hml` passes) -/
+theorem deserializeHml_enc {m : Nat} {s : Bits} {k : LabelKind} {lb : Bits} (h : LabelEnc m s k lb) (rest : Bits) :
+    deserializeHml (lb ++ rest) (m : Int) = some (s.length, s, rest) := by
+  have hl := labelEnc_len_le h
+  simp only [deserializeHml, readHml_enc h]
+  have : ¬ ((s.length : Int) > (m : Int)) := by omega
+  simp [this]
+
+/-- what `deserialize_hml` returns is what its constructor branches read, and the label is not longer than the remaining key -/
+theorem deserializeHml_some {bits : Bits} {m : Int} {n : Nat} {s rest : Bits} :
+    deserializeHml bits m = some (n, s, rest) ↔ readHml bits m = some (n, s, rest) ∧ (n : Int) ≤ m := by
+  unfold deserializeHml
+  cases hr : readHml bits m with
+  | none => simp
+  | some t =>
+    obtain ⟨n', s', rest'⟩ := t
+    by_cases hgt : (n' : Int) > m
+    · simp only [hgt, if_true, Option.some.injEq, Prod.mk.injEq]
+      constructor
+      · intro h; cases h
+      · rintro ⟨⟨rfl, _, _⟩, hle⟩; omega
+    · simp only [hgt, if_false, Option.some.injEq, Prod.mk.injEq]
+      constructor
+      · rintro ⟨rfl, rfl, rfl⟩; exact ⟨⟨rfl, rfl, rfl⟩, by omega⟩
+      · rintro ⟨h, _⟩; exact h
+
+/-- a label the reader accepts fits the remaining key; in particular the remaining key was not negative -/
+theorem deserializeHml_le {bits : Bits} {m : Int} {n : Nat} {s rest : Bits}
+    (h : deserializeHml bits m = some (n, s, rest)) : (n : Int) ≤ m := (deserializeHml_some.1 h).2
+
+/-- a label longer than the remaining key is refused -/
+theorem deserializeHml_too_long {bits : Bits} {m : Int} {n : Nat} {s rest : Bits}
+    (h : readHml bits m = some (n, s, rest)) (hgt : m < (n : Int)) : deserializeHml bits m = none := by
+  simp [deserializeHml, h, hgt]
+
+theorem labelEnc_iff_bits {m : Nat} {s : Bits} {k : LabelKind} {lb : Bits} :
+    LabelEnc m s k lb ↔ LabelBits m s k lb ∧ s.length ≤ m := by
+  constructor
+  · intro h
+    have hl := labelEnc_len_le h
+    have hlt : s.length < 2 ^ lenBits m := Nat.lt_of_le_of_lt hl (lt_two_pow_bitLength m)
+    refine ⟨?_, hl⟩
+    cases h with
+    | short _ => exact .short
+    | long _ => exact .long hlt
+    | same v hs _ => exact .same v hs hlt
+  · rintro ⟨h, hl⟩
+    cases h with
+    | short => exact .short hl
+    | long _ => exact .long hl
+    | same v hs _ => exact .same v hs hl
+
+/-- `deserialize_hml` on a label pattern: returned iff the label fits the remaining key -/
+theorem deserializeHml_bits {m : Nat} {s : Bits} {k : LabelKind} {lb : Bits} (h : LabelBits m s k lb) (rest : Bits) :
+    deserializeHml (lb ++ rest) (m : Int) = if s.length ≤ m then some (s.length, s, rest) else none := by
+  simp only [deserializeHml, readHml_bits h]
+  by_cases hl : s.length ≤ m
+  · have : ¬ ((s.length : Int) > (m : Int)) := by omega
+    simp [this, hl]
+  · have : (s.length : Int) > (m : Int) := by omega
+    simp [this, hl]
+
+/-- the first data byte of every exotic cell is its type (1..4): the label reader sees `00…` = an empty `hml_short` label -/
+theorem deserializeHml_zero_zero (r : Bits) {m : Int} (hm : 0 ≤ m) :
+    deserializeHml (false :: false :: r) m = some (0, [], r) := by
+  simp [deserializeHml, readHml, readUnary, loadBits, hm]
 
 /-! ### the parser on spec-valid trees -/
 
@@ -200,7 +290,7 @@ theorem parseEdge_valid {ok p n c kv} (h : ValidHMK ok p n c kv) :
   | @pruned n bits hb =>
     intro pfx _
     obtain ⟨r, rfl⟩ := pruned_bits hb
-    simp [parseEdge, deserializeHml, readUnary, loadBits]
+    simp [parseEdge, deserializeHml_zero_zero r (Int.natCast_nonneg n)]
 
 theorem parseAugEdge_valid {X Y : Type} {D : AugDec X Y} {p n c kv ex} (h : ValidAug D p n c kv ex) :
     ∀ (pfx : Bits), parseAugEdge D c (n : Int) pfx = some (kv.map (pre pfx), ex) := by
@@ -220,6 +310,108 @@ theorem parseAugEdge_valid {X Y : Type} {D : AugDec X Y} {p n c kv ex} (h : Vali
   | @pruned n kind bits refs hk =>
     intro pfx
     simp [parseAugEdge, hk]
+
+/-! ### labels longer than the remaining key (hashmap.tlb `{n <= m}`) -/
+
+/-- `parse` reads the label BEFORE it looks at the cell type: a refused label raises whatever the cell is -/
+theorem parseEdge_label_none {kind : Int} {bits : Bits} {refs : List Cell} {k : Int} {pfx : Bits}
+    (h : deserializeHml bits k = none) : parseEdge (.mk kind bits refs) k pfx = none := by
+  rw [parseEdge, h]
+
+/-- `parse_aug` tests the type first; on an ordinary cell a refused label raises -/
+theorem parseAugEdge_label_none {X Y : Type} (D : AugDec X Y) {bits : Bits} {refs : List Cell} {k : Int} {pfx : Bits}
+    (h : deserializeHml bits k = none) : parseAugEdge D (.mk (-1) bits refs) k pfx = none := by
+  rw [parseAugEdge]; simp [h]
+
+/-- an exception in either child ends the whole parse -/
+theorem parseFork_none {l r : Cell} {more : List Cell} {m : Int} {pfx : Bits}
+    (h : parseEdge l m (pfx ++ [false]) = none ∨ parseEdge r m (pfx ++ [true]) = none) :
+    parseFork (l :: r :: more) m pfx = none := by
+  rw [parseFork]
+  rcases h with h | h
+  · rw [h]
+  · rw [h]; cases parseEdge l m (pfx ++ [false]) <;> rfl
+
+theorem parseAugFork_none {X Y : Type} (D : AugDec X Y) {l r : Cell} {more : List Cell} {rest : Bits} {m : Int} {pfx : Bits}
+    (h : parseAugEdge D l m (pfx ++ [false]) = none ∨ parseAugEdge D r m (pfx ++ [true]) = none) :
+    parseAugFork D (l :: r :: more) rest m pfx = none := by
+  rw [parseAugFork]
+  rcases h with h | h
+  · rw [h]
+  · rw [h]; cases parseAugEdge D l m (pfx ++ [false]) <;> rfl
+
+/-- a negative (remaining) key length is refused by the first label read, on every cell -/
+theorem parseEdge_neg (c : Cell) {k : Int} (hk : k < 0) (pfx : Bits) : parseEdge c k pfx = none := by
+  cases c with
+  | mk kind bits refs =>
+    apply parseEdge_label_none
+    cases hd : deserializeHml bits k with
+    | none => rfl
+    | some t => obtain ⟨n, s, rest⟩ := t; have := deserializeHml_le hd; omega
+
+theorem parseAugEdge_neg {X Y : Type} (D : AugDec X Y) (bits : Bits) (refs : List Cell) {k : Int} (hk : k < 0) (pfx : Bits) :
+    parseAugEdge D (.mk (-1) bits refs) k pfx = none := by
+  apply parseAugEdge_label_none
+  cases hd : deserializeHml bits k with
+  | none => rfl
+  | some t => obtain ⟨n, s, rest⟩ := t; have := deserializeHml_le hd; omega
+
+mutual
+  /-- every edge a parse walks through: its label is readable and not longer than the key length remaining there; the walk
+  continues below ordinary cells whose label leaves key bits over (first two references, remaining length minus the fork bit) -/
+  def labelsFit : Cell → Int → Prop
+    | .mk kind bits refs, k =>
+      match readHml bits k with
+      | none => False
+      | some (n, _, _) => (n : Int) ≤ k ∧ (kind ≠ -1 ∨ k - (n : Int) = 0 ∨ labelsFitFork refs (k - (n : Int) - 1))
+  def labelsFitFork : List Cell → Int → Prop
+    | l :: r :: _, m => labelsFit l m ∧ labelsFit r m
+    | _, _ => False
+end
+
+mutual
+  /-- a `parse` that returns has met only labels that fit the remaining key -/
+  theorem parseEdge_labelsFit : ∀ (c : Cell) (k : Int) (pfx : Bits) (kv : List (Bits × Val)),
+      parseEdge c k pfx = some kv → labelsFit c k
+    | .mk kind bits refs, k, pfx, kv, h => by
+      rw [parseEdge] at h
+      cases hd : deserializeHml bits k with
+      | none => rw [hd] at h; cases h
+      | some t =>
+        obtain ⟨n, s, rest⟩ := t
+        rw [hd] at h
+        simp only [] at h
+        obtain ⟨hr, hle⟩ := deserializeHml_some.1 hd
+        rw [labelsFit, hr]
+        refine ⟨hle, ?_⟩
+        by_cases hk : kind = -1
+        · right
+          by_cases hm : k - (n : Int) = 0
+          · left; exact hm
+          · right
+            simp only [hk, ne_eq, not_true_eq_false, if_false, hm] at h
+            exact parseFork_labelsFit refs _ _ _ h
+        · left; exact hk
+  theorem parseFork_labelsFit : ∀ (refs : List Cell) (m : Int) (pfx : Bits) (kv : List (Bits × Val)),
+      parseFork refs m pfx = some kv → labelsFitFork refs m
+    | [], m, pfx, kv, h => by simp [parseFork] at h
+    | [_], m, pfx, kv, h => by simp [parseFork] at h
+    | l :: r :: more, m, pfx, kv, h => by
+      rw [parseFork] at h
+      split at h
+      · rename_i a b ha hb
+        rw [labelsFitFork]
+        exact ⟨parseEdge_labelsFit l m _ a ha, parseEdge_labelsFit r m _ b hb⟩
+      · cases h
+end
+
+/-- wherever the walk stands, the remaining key length is not negative -/
+theorem labelsFit_nonneg : ∀ (c : Cell) (k : Int), labelsFit c k → 0 ≤ k
+  | .mk kind bits refs, k, h => by
+    rw [labelsFit] at h
+    split at h
+    · exact h.elim
+    · have := h.1; omega
 
 /-! ### keys -/
 theorem natOfBits_replicate_false (j : Nat) (b : Bits) : natOfBits (List.replicate j false ++ b) = natOfBits b := by
